@@ -146,13 +146,37 @@ def run_case(case):
             fl = [x for x in fs.files() if len(fs.entries[x[0]][x[1]][1]) > 0]
             c = a.load_content()
             posof = {(c.disk_name(f.disk), f.sub): [b[0] for b in f.blocks] for f in c.files}
+            recof = {(c.disk_name(f.disk), f.sub): f for f in c.files}
             for (d, s) in rng.sample(fl, min(len(fl), rng.randint(1, 3))):
                 k_ = rng.random()
                 if fs.links_of(d, s):
                     continue
-                if k_ < 0.35:
+                if k_ < 0.25:
                     fs.write(d, s, A.gen_bytes(rng, len(fs.entries[d][s][1]), "rand"), keep_inode=True)
-                elif k_ < 0.7:
+                elif k_ < 0.45:
+                    # near-miss stamp: new bytes of the same size under a time-stamp that differs from the recorded one in
+                    # one component only (sub-second part zeroed as a one-second-precision restore tool leaves it, sub-second
+                    # part off by one, second off by one): still a file changed since the last sync, never a silent error
+                    f_ = recof.get((a.disk_names[d].encode(), s))
+                    if f_ is None or f_.mtime_nsec < 0 or not recorded_on_disk(a, c, f_):
+                        continue
+                    try:
+                        with open(fs.path(d, s), "rb") as fh_:
+                            if fh_.read() != fs.entries[d][s][1]:
+                                continue
+                    except OSError:
+                        continue
+                    cand_ = [(f_.mtime_sec, (f_.mtime_nsec + 1) % 10**9), (f_.mtime_sec + 1, f_.mtime_nsec), (f_.mtime_sec - 1, f_.mtime_nsec)]
+                    if f_.mtime_nsec != 0:
+                        cand_ += [(f_.mtime_sec, 0)] * 3
+                    sec_, nsec_ = rng.choice(cand_)
+                    old_ = fs.entries[d][s][1]
+                    new_ = A.gen_bytes(rng, len(old_), "rand")
+                    if new_ == old_:
+                        continue
+                    fs.write(d, s, new_, mtime_ns=sec_ * 10**9 + nsec_, keep_inode=True)
+                    res["counters"]["near_miss_stamp_rewrites"] = res["counters"].get("near_miss_stamp_rewrites", 0) + 1
+                elif k_ < 0.75:
                     # same content, new time-stamp: every hash still matches but the blocks count as unsynced
                     # (a file the harness silently damaged before is left alone: re-timing it would turn the damage into a
                     # change made by the user, which a later sync legitimately adopts)
